@@ -610,6 +610,12 @@ tx_outs:\n{tx_outs}
             or script_pubkey.is_p2tr()
         ) and len(tx_in.script_sig.commands) > 0:
             return False
+        # BIP16: the ScriptSig of a p2sh input is push-only (nothing above OP_16),
+        # so that its last element is the RedeemScript that gets evaluated
+        if script_pubkey.is_p2sh():
+            for command in tx_in.script_sig.commands:
+                if isinstance(command, int) and command > 0x60:
+                    return False
         # combine the scripts
         combined_script = tx_in.script_sig + script_pubkey
         # evaluate the combined script
